@@ -6,7 +6,8 @@ multiset of in-zone records, independent of how each is spelled:
   {"k": "rr",   "owner": [labels... b""], "ttl": int, "rdtype": int, "type": "MX",
                 "text": "<rdata presentation text, absolute names>", "wire": bytes,
                 "name_rd": None | {"prefix": ["10"], "target": [labels... b""]},
-                "generic_ok": bool, "p": {per-record spelling plan}}
+                "generic_ok": bool | callable(current origin labels) -> bool,
+                "p": {per-record spelling plan}}
   {"k": "gen",  ... a $GENERATE pattern, see expand_generate() ...}
   {"k": "junk", "owner": [labels out of zone], "ttl": int, "type": "A", "text": "...",
                 "cont": bool, "p": {...}}            -- must be ignored by the reader
@@ -445,7 +446,10 @@ def respell(model, top_origin=False, top_ttl=None, no_directives=False, rel_orig
 
     def rdata_tokens(it, p):
         rm = p.get("rd", 0)
-        if rm == 1 and it.get("generic_ok"):
+        ok = it.get("generic_ok")
+        if callable(ok):
+            ok = ok(st.origin)  # may depend on the origin in force (see C09 EXCLUDE_GENERIC_READ)
+        if rm == 1 and ok:
             applied["rdata-generic"] += 1
             return generic_tokens(it["wire"], p.get("hexchunk", 0))
         nr = it.get("name_rd")
